@@ -166,8 +166,10 @@ def make_pool(seed):
                                            label=pool['a.p8']['label'])
     pool['b.p8']['data'] = reffmt.write_p8(pool['b.p8']['version'], codes['b.p8'], pool['b.p8']['mem'], elide=True)
     for name in ('c.p8.png', 'd.p8.png'):
+        # d.p8.png as an image tool may have re-saved it (interlaced / filtered / extra chunks)
+        kw = reffmt.png_flavour(expand(b'flavour' + seed, 4))[0] if name == 'd.p8.png' else None
         pool[name]['data'] = reffmt.write_p8png(_rows(name.encode(), seed), pool[name]['mem'], codes[name],
-                                                pool[name]['version'])
+                                                pool[name]['version'], png_kw=kw)
     pool['prev']['label'] = expand(b'olab' + seed, 8192)
     pool['prev']['rows'] = None
     pool['prev']['out_data'] = {}
@@ -200,7 +202,8 @@ def prev_out_data(pool, seed, out_kind):
             d = reffmt.write_p8(p['version'], code, p['mem'])
         elif out_kind == 'png_existing':
             p['rows'] = _rows(b'prevpix', bytes(seed))
-            d = reffmt.write_p8png(p['rows'], p['mem'], code, p['version'])
+            d = reffmt.write_p8png(p['rows'], p['mem'], code, p['version'],
+                                   png_kw=reffmt.png_flavour(expand(b'outflavour' + bytes(seed), 4))[0])
         else:
             d = None
         p['out_data'][out_kind] = d
